@@ -1,6 +1,6 @@
 (* Execution helpers for the correspondence checks of C03 / C04: histories of read-only queries (and permanent
    conversions) on the QNum instance; each result is compared INSIDE Coq with what the implementation returned. *)
-From Coq Require Import QArith ZArith String List Bool.
+From Coq Require Import QArith Qabs ZArith String List Bool.
 From PG Require Import Lib.Num Lib.Py Lib.Show Gen.UnitsGen1 Units.AdsOracle Gen.UnitsGen2 Iso.IsoState Gen.IsoGen Iso.IsoShow Iso.IsoAccess.
 Import ListNotations.
 Open Scope string_scope.
@@ -39,12 +39,22 @@ Definition do_query (s : iso QNum) (q : query) : iso QNum * Z * list Q :=
   end.
 Definition cache_code (c : option (cache QNum)) : Z :=
   match c with None => 0%Z | Some k => 1%Z end.
+(* values that come out of an extrapolation or a difference can be tiny compared with the data they were computed from: the comparison
+   tolerance is relative to the largest magnitude in the returned list (cancellation error of binary64 is absolute at that scale) *)
+Definition qmax_abs (l : list Q) : Q := fold_left (fun m x => if Qle_bool m (Qabs x) then Qabs x else m) l 0.
+Fixpoint all_close_abs (tol : Q) (qs : list Q) (ps : list (Z * Z)) : bool :=
+  match qs, ps with
+  | [], [] => true
+  | q :: qr, (m, e) :: pr => Qle_bool (Qabs (q - fl m e)) tol && all_close_abs tol qr pr
+  | _, _ => false end.
+Definition all_close_scaled (tn td : Z) (qs : list Q) (ps : list (Z * Z)) : bool :=
+  all_close tn td qs ps || all_close_abs (inject_Z tn / inject_Z td * qmax_abs qs) qs ps.
 Fixpoint run_queries_cmp (tn td : Z) (s : iso QNum) (qs : list (query * list (Z * Z))) : list (list Z) :=
   match qs with
   | [] => []
   | (q, ex) :: r =>
       let '(s', code, vals) := do_query s q in
-      [code; if all_close tn td vals ex then 1%Z else 0%Z; cache_code (l_interpolator s'); cache_code (p_interpolator s');
+      [code; if all_close_scaled tn td vals ex then 1%Z else 0%Z; cache_code (l_interpolator s'); cache_code (p_interpolator s');
        lab_code (pressure_mode s'); lab_code (pressure_unit s'); lab_code (loading_basis s'); lab_code (loading_unit s');
        lab_code (material_basis s'); lab_code (material_unit s')]
       :: run_queries_cmp tn td s' r
